@@ -106,6 +106,7 @@ package core
 //@   ensures ok ==> vm.K1(st.gasRemaining) == vm.K1(old(st.gasRemaining)) && vm.K2(st.gasRemaining) == vm.K2(old(st.gasRemaining))
 //@   ensures ok ==> st.gasRemaining.ExecutionGas + st.gasRemaining.StateGas + cost.ExecutionGas + cost.StateGas == old(st.gasRemaining.ExecutionGas) + old(st.gasRemaining.StateGas)
 //@   ensures vm.ranged(st.gasRemaining)
+//@   ensures st.gasRemaining.StateGas <= old(st.gasRemaining.StateGas) && st.gasRemaining.UsedExecutionGas >= old(st.gasRemaining.UsedExecutionGas)
 //@   modifies st.gasRemaining
 
 // initRuntimeGasBudget: the running budget is exactly what the gas limit leaves after the
@@ -224,6 +225,10 @@ package core
 //@ directive pure-observer core/vm.StateDB).Exist
 //@ directive pure-observer funcfield:BlockContext.CanTransfer
 //@ directive readonly-args core/vm.StateDB).Prepare
+//@ directive readonly-args core/vm.StateDB).SetCode
+//@ directive noeffect types.SetCodeAuthorization).Authority
+//@ directive noeffect stateTransition).traceHaltedTopFrame
+//@ directive pure-observer core/vm.StateDB).GetNonce
 
 //@ func (st *stateTransition) preCheck(rules params.Rules) (err error)
 //@   serves C31
@@ -231,19 +236,60 @@ package core
 //@   modifies st.gp.remaining
 //@   mutates
 
+// A frame budget at transaction level: ranged, with 2^40 of head-room in the reservoir for the
+// account-creation refill (AccountCreationSize x CostPerStateByte with CostPerStateByte <= 2^32).
+//@ pure func txBudget(st *stateTransition) bool { return vm.ranged(st.gasRemaining) && st.gasRemaining.StateGas + 1099511627776 <= vm.TMAX() && st.evm.Context.CostPerStateByte <= 4294967296 }
+
+//@ func (st *stateTransition) validateAuthorization(auth *types.SetCodeAuthorization) (authority common.Address, err error)
+//@   serves C31
+//@   mutates
+//@   ensures err == nil ==> auth.Nonce + 1 <= 18446744073709551615
+
+//@ func (st *stateTransition) applyAuthorization(rules params.Rules, auth *types.SetCodeAuthorization, authorities map[common.Address]*authTracking) (err error)
+//@   serves C31
+//@   requires txBudget(st)
+//@   modifies st.gasRemaining, authorities[..], typeof authTracking
+//@   mutates
+//@   ensures vm.K1(st.gasRemaining) == old(vm.K1(st.gasRemaining)) && vm.K2(st.gasRemaining) == old(vm.K2(st.gasRemaining)) && vm.ranged(st.gasRemaining)
+//@   ensures st.gasRemaining.StateGas <= old(st.gasRemaining.StateGas)
+//@   ensures err == ErrOutOfGasRuntime ==> st.gasRemaining == old(st.gasRemaining)
+
+//@ func (st *stateTransition) applyAuthorizations(rules params.Rules, auths []types.SetCodeAuthorization) (ok bool)
+//@   serves C31
+//@   requires txBudget(st)
+//@   modifies st.gasRemaining, typeof authTracking
+//@   mutates
+//@   ensures vm.K1(st.gasRemaining) == old(vm.K1(st.gasRemaining)) && vm.K2(st.gasRemaining) == old(vm.K2(st.gasRemaining)) && vm.ranged(st.gasRemaining)
+//@   ensures st.gasRemaining.StateGas <= old(st.gasRemaining.StateGas)
+//@   loop 1 "range auths"
+//@     invariant 0 - 1 <= rangeindex && rangeindex <= len(auths) - 1
+//@     invariant vm.K1(st.gasRemaining) == old(vm.K1(st.gasRemaining)) && vm.K2(st.gasRemaining) == old(vm.K2(st.gasRemaining)) && vm.ranged(st.gasRemaining)
+//@     invariant st.gasRemaining.StateGas <= old(st.gasRemaining.StateGas)
+//@     invariant st.evm == old(st.evm) && st.evm.Context.CostPerStateByte == old(st.evm.Context.CostPerStateByte)
+
+//@ func (st *stateTransition) chargeCallRecipientEIP2780(value *uint256.Int) (ok bool)
+//@   serves C31
+//@   requires txBudget(st)
+//@   modifies st.gasRemaining
+//@   mutates
+//@   ensures vm.K1(st.gasRemaining) == old(vm.K1(st.gasRemaining)) && vm.K2(st.gasRemaining) == old(vm.K2(st.gasRemaining)) && vm.ranged(st.gasRemaining)
+//@   ensures st.gasRemaining.StateGas <= old(st.gasRemaining.StateGas)
+
+// executeCall / executeCreate: the top-level frame. Whatever the frame does, the running budget
+// keeps K1 and K2 (so execution + state gas handed out == consumed + spilled + left).
 //@ func (st *stateTransition) executeCall(rules params.Rules, value *uint256.Int) (ret []byte, vmerr error)
 //@   serves C31
-//@   trusted the frame functions of package vm conserve K1 and K2 of the budget they are given (verified separately for EVM.Call/create under C29/C31 contracts); the interpreter loop itself is out of reach
-//@   requires vm.ranged(st.gasRemaining)
-//@   modifies st.gasRemaining
+//@   requires txBudget(st) && st.gasRemaining.UsedExecutionGas == 0 && st.gasRemaining.Spilled == 0 && st.gasRemaining.UsedStateGas == 0
+//@   requires st.evm.chainRules.IsHomestead
+//@   modifies st.gasRemaining, st.evm.depth, st.evm.readOnly, st.evm.returnData, *st.evm.AccessEvents, *st.evm.precompileCache, typeof authTracking
 //@   mutates
 //@   ensures vm.K1(st.gasRemaining) == old(vm.K1(st.gasRemaining)) && vm.K2(st.gasRemaining) == old(vm.K2(st.gasRemaining))
 
 //@ func (st *stateTransition) executeCreate(rules params.Rules, value *uint256.Int) (ret []byte, vmerr error)
 //@   serves C31
-//@   trusted the frame functions of package vm conserve K1 and K2 of the budget they are given (verified separately for EVM.Call/create under C29/C31 contracts); the interpreter loop itself is out of reach
-//@   requires vm.ranged(st.gasRemaining)
-//@   modifies st.gasRemaining
+//@   requires txBudget(st) && st.gasRemaining.UsedExecutionGas == 0 && st.gasRemaining.Spilled == 0 && st.gasRemaining.UsedStateGas == 0
+//@   requires st.evm.chainRules.IsHomestead
+//@   modifies st.gasRemaining, st.evm.depth, st.evm.readOnly, st.evm.returnData, *st.evm.AccessEvents, *st.evm.precompileCache, typeof authTracking
 //@   mutates
 //@   ensures vm.K1(st.gasRemaining) == old(vm.K1(st.gasRemaining)) && vm.K2(st.gasRemaining) == old(vm.K2(st.gasRemaining))
 
@@ -251,13 +297,14 @@ package core
 // usage, and the fee recipient is credited exactly gas used x effective tip.
 //@ func (st *stateTransition) execute() (res *ExecutionResult, err error)
 //@   serves C31 C32
-//@   requires st.msg.GasPrice != nil && st.msg.GasLimit <= vm.TMAX()
+//@   requires st.msg.GasPrice != nil && st.msg.GasLimit + 1099511627776 <= vm.TMAX() && st.evm.Context.CostPerStateByte <= 4294967296
+//@   requires st.evm.chainRules.IsHomestead
 //@   requires poolInvA(st.gp) && st.gp.cumulativeUsed + st.msg.GasLimit <= 18446744073709551615
 //@   requires bigval(st.evm.Context.BaseFee) >= 0 && bigval(st.evm.Context.BaseFee) <= u256val(st.msg.GasPrice)
 //@   requires st.msg.GasLimit * u256val(st.msg.GasPrice) < 115792089237316195423570985008687907853269984665640564039457584007913129639936
 //@   ensures err == nil ==> res != nil && res.UsedGas <= st.msg.GasLimit && res.MaxUsedGas >= res.UsedGas && res.MaxUsedGas <= st.msg.GasLimit
 //@   atcall AddBalance#1 requires old(observe(Rules, st.evm.chainConfig, st.evm.Context.BlockNumber, st.evm.Context.Random != nil, st.evm.Context.Time).IsLondon) ==> u256val(arg2) == gasUsed * (old(u256val(st.msg.GasPrice)) - old(bigval(st.evm.Context.BaseFee)))
 //@   atcall AddBalance#1 requires !old(observe(Rules, st.evm.chainConfig, st.evm.Context.BlockNumber, st.evm.Context.Random != nil, st.evm.Context.Time).IsLondon) ==> u256val(arg2) == gasUsed * old(u256val(st.msg.GasPrice))
-//@   modifies st.gasRemaining, *st.gp, *st.evm.AccessEvents
+//@   modifies st.gasRemaining, *st.gp, *st.evm.AccessEvents, st.evm.depth, st.evm.readOnly, st.evm.returnData, *st.evm.precompileCache, typeof authTracking
 //@   mutates
 //@   linear
